@@ -581,7 +581,14 @@ Definition check_split (p n : obs) (a b : Z) (res : list Z) : list (tag * bool) 
            | [] => cur =? vb
            | e :: t => (e <? nH n) && (org n e =? cur) && flag n e && go (dest n e) t
            end) va chain in
-      [(T_split, prefix_unchanged p n && constraints_covered p n npts
+      let chain_verts := va :: vb :: flat_map (fun e => [org n e; dest n e]) chain in
+      (* an existing vertex lying exactly on a piece between two anchors (chain vertices, new vertices, end points of old constraints)
+         subdivides that piece: a constraint edge never passes through a vertex *)
+      let anchors := chain_verts ++ seq (nV p) (nV n - nV p)
+                     ++ flat_map (fun k => if flag p (2 * k) then [org p (2 * k); dest p (2 * k)] else []) (seq 0 (o_ne p)) in
+      let on_piece := filter (fun w => existsb (fun x => existsb (fun y => strictly_between (pos npts x) (pos npts y) (pos npts w)) anchors) anchors)
+                             (seq 0 (nV p)) in
+      [(T_split, prefix_unchanged p n && constraints_covered_via (chain_verts ++ on_piece) p n npts
                  && (if va =? vb then true else match chain with [] => false | _ => chain_conn end))]
   | _, _ => [(T_parse, false)]
   end.
@@ -747,6 +754,21 @@ Definition check_weights (c : cfg) (p : obs) (natural : bool) (args res : list Z
   | _, _ => [(T_parse, false)]
   end.
 
+(* add_constraint_edge(s): the vertices are inserted in input order, the first invalid one decides the error (C08) *)
+Fixpoint first_invalid_flat (l : list Z) : Z * Z :=
+  match l with
+  | x :: y :: _ :: t => let '(k, e) := expected_validation x y in if (k =? K_err)%Z then (k, e) else first_invalid_flat t
+  | _ => (K_ok, 0%Z)
+  end.
+Definition check_adde_validate (vs res : list Z) : list (tag * bool) :=
+  let '(k, e) := first_invalid_flat vs in
+  match res with
+  | r0 :: rt =>
+      if (r0 =? K_err)%Z then [(T_validate, (k =? K_err)%Z && match rt with [r1] => (e =? r1)%Z | _ => false end)]
+      else [(T_validate, (k =? K_ok)%Z)]
+  | [] => []
+  end.
+
 Definition check_op (c : cfg) (p : obs) (op : Z) (args res : list Z) (n : obs) (aux : option (list Z)) : list (tag * bool) :=
   if existsb (Z.eqb K_skip) res || existsb (Z.eqb K_panic) res || existsb (Z.eqb K_hang) res then [] else
   if (op =? OP_ins)%Z then
@@ -761,6 +783,8 @@ Definition check_op (c : cfg) (p : obs) (op : Z) (args res : list Z) (n : obs) (
     end
   else if (op =? OP_lrm)%Z then
     match args with [x; y] => check_lrm p n x y res | _ => [(T_parse, false)] end
+  else if (op =? OP_adde)%Z then check_adde_validate args res
+  else if (op =? OP_addes)%Z then check_adde_validate (skipn 2 args) res
   else if (op =? OP_clear)%Z then
     [(T_vmap, (nV n =? 0) && (nH n =? 0) && (nF n =? 1) && (o_nc n =? 0))]
   else if (op =? OP_clone)%Z then
